@@ -47,6 +47,24 @@ def generate(rng, tier):
                     lm = s.add("manual U CM %s %s S %d" % (hx(pc0), regs, n))
                     s.meta[li] = {"twin": lm}
         out.append(("fpchain-%s-%d" % (arch, w), s))
+    # very deep stacks (runaway recursion is when a profiler's user looks at the whole walk): thousands of frame
+    # records; judged against the manual loop only (the extracted model is slow on walks of this length)
+    for arch, depth in ((("x86", 4200), ("a64", 1100)) if tier == "quick" else (("x86", 4200), ("a64", 4200), ("x86", 70000), ("a64", 20000))):
+        s = Script(arch); s.nomodel = True
+        base = 0x100000
+        pairs = []
+        for d in range(depth):
+            fp = base + 0x20 * d
+            pairs += [(fp, fp + 0x20 if d < depth - 1 else 0), (fp + 8, 0x20000 + 0x10 * (d % 4000))]
+        s.mem("S", pairs)
+        s.add("new U")
+        regs = s.regs_x86(0x999, base - 0x40, base) if arch == "x86" else s.regs_a64(M64, 0x998, base - 0x40, base)
+        for via in (0, 1):
+            s.add("newcache CI"); s.add("newcache CM")
+            li = s.add("iter U CI 0x999 %s S %d %d" % (regs, depth + 3, via), tag="%s:deep:%d:%d" % (arch, depth, via))
+            lm = s.add("manual U CM 0x999 %s S %d" % (regs, depth + 3))
+            s.meta[li] = {"twin": lm}
+        out.append(("deep-%s-%d" % (arch, depth), s))
     # walks that END on an uncacheable (generic) step: the registers have already been advanced
     # when the null return address is seen; further next() calls must still return Ok(None)
     for w in range(6 if tier == "quick" else 60):
